@@ -193,6 +193,12 @@ func propC13(r *Run) {
 		} else if derr != nil || back != req {
 			r.Fail("roundtrip/request", "decode(encode(x)) != x for lengths %d/%d/%d/%d: err=%v", len(f[0]), len(f[1]), len(f[2]), len(f[3]), derr)
 		}
+		// the byte-slice entry points are the same codec
+		var ub Request
+		uerr := ub.Unmarshal(want)
+		if (uerr == nil) != (derr == nil) || (uerr == nil && ub != back) {
+			r.Fail("roundtrip/request-unmarshal", "Unmarshal and Decode disagree on %d bytes: %v / %v", len(want), uerr, derr)
+		}
 	}
 	r.Nontrivial(fmt.Sprintf("enc %d %d %d %d", len(f[0]), len(f[1]), len(f[2]), len(f[3])))
 
@@ -214,6 +220,9 @@ func propC13(r *Run) {
 	} else if rerr != nil || !bytes.Equal(rb.Bytes(), want) {
 		r.Fail("encode/response-format", "Response{%v,%d bytes}.Encode gives %x (err=%v), wire format says %x", resp.Result, len(msg), rb.Bytes(), rerr, want)
 	}
+	if mb, merr := resp.Marshal(); (merr == nil) != (rerr == nil) || (merr == nil && !bytes.Equal(mb, rb.Bytes())) {
+		r.Fail("encode/response-marshal", "Response{%v,%d bytes}: Marshal gives %d bytes (err=%v), Encode %d bytes (err=%v)", resp.Result, len(msg), len(mb), merr, rb.Len(), rerr)
+	}
 	if 3+len(msg) <= 256 || msg == "" {
 		var back Response
 		derr := back.Decode(&schedReader{data: want, r: r, mode: 2, eofTog: r.Choose("eof-with-data", 2) == 1})
@@ -231,6 +240,14 @@ func propC13(r *Run) {
 		raw = raw[:r.Choose("rcut", len(raw)+1)]
 	}
 	wok, wmsg, lenient, werr := RefDecodeResponse(raw)
+	{
+		var a, b Response
+		ea := a.Unmarshal(raw)
+		eb := b.Decode(bytes.NewReader(raw))
+		if (ea == nil) != (eb == nil) || a != b {
+			r.Fail("decode/response-unmarshal", "Unmarshal and Decode disagree on %x: {%v,%s} err=%v / {%v,%s} err=%v", raw, a.Result, simrt.Q(a.Message), ea, b.Result, simrt.Q(b.Message), eb)
+		}
+	}
 	var base *Response
 	for k := 0; k < 3; k++ {
 		var got Response
